@@ -129,6 +129,9 @@ def _dominates(want, d):
     return diff.is_const() and diff.const >= 0
 
 
+_UNIT = Lin(1).freeze()
+
+
 def ub_set(e, ctx, depth=0):
     """set of frozen linear forms that bound the expression from above"""
     out = set()
@@ -147,6 +150,8 @@ def ub_set(e, ctx, depth=0):
             for x, r in ((a, b), (b, a)):
                 if isinstance(r, (int, float)) and 0 <= r <= 1 and nonneg(x, ctx):
                     out |= ub_set(x, ctx, depth + 1)
+                elif isinstance(r, E) and depth < 4 and _UNIT in ub_set(r, ctx, depth + 1) and nonneg(r, ctx) and nonneg(x, ctx):
+                    out |= ub_set(x, ctx, depth + 1)      # r is an allowed ratio: a line or term capped at 1
         if e.op == 'call' and e.args[0] in ('float', 'round') and len(e.args) >= 2 and e.args[0] == 'float':
             out |= ub_set(e.args[1], ctx, depth + 1)
     return out
